@@ -14,12 +14,13 @@
 using namespace drv;
 namespace cc = cds::container;
 static CdsInit s_init;
+bool drv::g_cs_points = true;
 // table-driven hash functions: mode 0: (k, k/2), 1: constant pair, 2: (k%2, k%3), 3: from the table set by "--extra" programs (seth op)
 static int g_hash_mode = 0; static int g_h1[64], g_h2[64];
 size_t drv::item_hash::hash_of(int k) { switch (g_hash_mode) { case 1: return 1; case 2: return (size_t)(k % 2); case 3: return (size_t)g_h1[k & 63]; default: return (size_t)k; } }
 struct hash2 { size_t operator()(Item const& i) const { return h(i.key); } size_t operator()(int k) const { return h(k); }
   static size_t h(int k) { switch (g_hash_mode) { case 1: return 3; case 2: return (size_t)(k % 3); case 3: return (size_t)g_h2[k & 63]; default: return (size_t)(k / 2 + 1); } } };
-struct item_eq { template <class A, class B> bool operator()(A const& a, B const& b) const { return item_less::kof(a) == item_less::kof(b); } };
+struct item_eq { template <class A, class B> bool operator()(A const& a, B const& b) const { cs_point(); return item_less::kof(a) == item_less::kof(b); } };
 typedef cds::sync::spin_lock<cds::backoff::yield> spin_t;
 template <class MP, class PS, unsigned SH, bool ORD> struct ck_t : public cc::cuckoo::traits { typedef cds::opt::hash_tuple<item_hash, hash2> hash; typedef MP mutex_policy; typedef PS probeset_type; static unsigned int const store_hash = SH;
   typedef typename std::conditional<ORD, item_less, cds::opt::none>::type less; typedef typename std::conditional<ORD, cds::opt::none, item_eq>::type equal_to; typedef cds::atomicity::item_counter item_counter; };
